@@ -199,4 +199,54 @@ theorem iterPos_erase (l : List Nat) (p id : Nat) (hn : l.Nodup) (hp : l[p]? = s
         simp only [posOf, this, if_false]
         omega
 
+/-! ### pushRange -/
+
+theorem mem_pushRange (first n : Nat) (l : List Nat) (x : Nat) :
+    x ∈ Table.pushRange first n l ↔ ((first ≤ x ∧ x < first + n) ∨ x ∈ l) := by
+  induction n generalizing first l with
+  | zero =>
+    simp only [Table.pushRange, Nat.add_zero]
+    constructor
+    · exact fun h => Or.inr h
+    · rintro (⟨h1, h2⟩ | h)
+      · omega
+      · exact h
+  | succ n ih =>
+    simp only [Table.pushRange]
+    rw [ih]
+    simp only [List.mem_cons]
+    constructor
+    · rintro (⟨h1, h2⟩ | h | h)
+      · exact Or.inl ⟨by omega, by omega⟩
+      · exact Or.inl ⟨by omega, by omega⟩
+      · exact Or.inr h
+    · rintro (⟨h1, h2⟩ | h)
+      · by_cases e : x = first
+        · exact Or.inr (Or.inl e)
+        · exact Or.inl ⟨by omega, by omega⟩
+      · exact Or.inr (Or.inr h)
+
+theorem nodup_pushRange (first n : Nat) (l : List Nat) (hl : l.Nodup) (hlt : ∀ x ∈ l, x < first) :
+    (Table.pushRange first n l).Nodup := by
+  induction n generalizing first l with
+  | zero => exact hl
+  | succ n ih =>
+    simp only [Table.pushRange]
+    apply ih
+    · exact List.nodup_cons.2 ⟨fun hm => Nat.lt_irrefl _ (hlt _ hm), hl⟩
+    · intro x hx
+      rcases List.mem_cons.1 hx with e | e
+      · omega
+      · have := hlt x e; omega
+
+theorem pushRange_succ_last (first n : Nat) (l : List Nat) :
+    Table.pushRange first (n + 1) l = (first + n) :: Table.pushRange first n l := by
+  induction n generalizing first l with
+  | zero => simp [Table.pushRange]
+  | succ n ih =>
+    rw [Table.pushRange, ih (first + 1) (first :: l)]
+    simp only [Table.pushRange]
+    congr 1
+    omega
+
 end Nstd.Hash
